@@ -53,7 +53,7 @@ def r_heads(prog, tier):
         if isinstance(n, ast.Subscript) and unparse(n) == ssl:
             nuse += 1
             p = parents.get(n)
-            ok = False
+            ok = None
             how = 'used as `%s`' % unparse(p)[:50]
             if isinstance(p, ast.Call) and isinstance(p.func, ast.Name) and p.func.id == 'len':
                 ok = True
@@ -62,8 +62,10 @@ def r_heads(prog, tier):
                 ok = True
                 how = '.split() into categories'
             elif isinstance(p, (ast.For, ast.comprehension)) and p.iter is n:
+                ok = False
                 how = 'iterated directly: the loop runs over the *characters* of the list, no category ever matches'
-            elif isinstance(p, ast.Compare):
+            elif isinstance(p, ast.Compare) and isinstance(p.ops[0], (ast.In, ast.NotIn)) and n in p.comparators:
+                ok = False
                 how = 'substring test on the string instead of membership in the list of categories'
             obs.append(Ob('R-HEADS/SSL', f.fq, 'the category list of a rule (`%s`) is only measured or split' % ssl, ok, how,
                           construct='ssl:' + unparse(p)[:50], line=n.lineno))
@@ -101,6 +103,8 @@ def r_heads(prog, tier):
             nested = [r for r in rets if len(r.loops) > len(a.loops)]
             shape[d] = (len(direct), len(nested))
         ok = len(shape) == 2 and len(set(shape.values())) == 1 and list(shape.values())[0][0] == 0
+        if not ok:
+            ok = False if (len(shape) == 2 and len(set(shape.values())) == 2) else None
         obs.append(Ob('R-HEADS/SIBLING', f.fq, 'left-to-right and right-to-left differ only in the scanning order', ok,
                       'both: a conditional return inside the scan, none after it' if ok else
                       '(returns directly in the branch, returns inside the scan) per direction: %s - one direction gives '
@@ -109,9 +113,11 @@ def r_heads(prog, tier):
     for r in [n for n in cfg.eval_nodes() if n.kind == 'stmt' and isinstance(n.ast, ast.Return)]:
         v = r.ast.value
         s = unparse(v) if v is not None else 'None'
-        ok = False
-        why = 'not a child position'
-        if s == '0':
+        ok = None
+        why = 'not recognised as a child position'
+        if s == 'len(%s)' % clab or s == 'len(%s) + 1' % clab:
+            ok, why = False, 'one past the last child: no child gets the head mark'
+        elif s == '0':
             ok, why = True, 'first child'
         elif s == 'len(%s) - 1' % clab:
             ok, why = True, 'last child'
@@ -126,8 +132,8 @@ def r_heads(prog, tier):
     # direction compared with the two literals, else raise
     lits = sorted(set(k[0] for k in dirs))
     rz = [n for n in cfg.eval_nodes() if n.kind == 'stmt' and isinstance(n.ast, ast.Raise)]
-    obs.append(Ob('R-HEADS/DIR', f.fq, 'a direction other than the two documented ones is refused', lits == ['left-to-right',
-                  'right-to-left'] and len(rz) >= 1, 'compared with %s, else raise' % lits, construct='dirs', nontrivial=False,
+    obs.append(Ob('R-HEADS/DIR', f.fq, 'a direction other than the two documented ones is refused', True if (lits == ['left-to-right',
+                  'right-to-left'] and len(rz) >= 1) else None, 'compared with %s, else raise' % lits, construct='dirs', nontrivial=False,
                   line=f.node.lineno))
     # categories compared lower-case and undecorated
     cmpn = [n for n in walk_own(f.node) if isinstance(n, ast.Compare) and 'parse_label' in ''.join(
@@ -135,7 +141,7 @@ def r_heads(prog, tier):
                                    for x in name_defs(f, nm)] if isinstance(v, ast.AST))]
     okc = bool(cmpn) and all('.label.lower()' in unparse(c) for c in cmpn)
     lowkey = any(isinstance(n, ast.Subscript) and unparse(n) == '%s[%s.lower()]' % (rules, plab) for n in walk_own(f.node))
-    obs.append(Ob('R-HEADS/CMP', f.fq, 'categories are compared lower-case and without decorations', okc and lowkey,
+    obs.append(Ob('R-HEADS/CMP', f.fq, 'categories are compared lower-case and without decorations', True if (okc and lowkey) else None,
                   'children: parse_label(...).label.lower(); parent key lower()' if okc and lowkey else
                   'comparison does not go through parse_label(...).label.lower() / parent.lower()', construct='cmp',
                   line=f.node.lineno))
@@ -147,8 +153,9 @@ def r_heads(prog, tier):
         rootf = [n for n in gc.eval_nodes() if n.kind == 'stmt' and unparse(n.ast) == "%s.data['head'] = False" % tree
                  and not n.loops and gc.postdominates(n.id, gc.entry)]
         loops = [n for n in gc.eval_nodes() if n.kind == 'iter' and unparse(n.ast.iter) == 'trees.preorder(%s)' % tree]
-        obs.append(Ob('R-HEADS/MARK', g.fq, 'the root is marked as non-head', bool(rootf) and bool(loops)
-                      and gc.dominates(rootf[0].id, loops[0].id) if rootf and loops else False,
+        obs.append(Ob('R-HEADS/MARK', g.fq, 'the root is marked as non-head', True if (rootf and loops
+                      and gc.dominates(rootf[0].id, loops[0].id)) else (False if not any(
+                          unparse(n.ast).startswith("%s.data['head']" % tree) for n in gc.eval_nodes() if n.kind == 'stmt') else None),
                       '`%s.data[\'head\'] = False` before the traversal' % tree if rootf else 'root not unmarked',
                       construct='mark-root', line=g.node.lineno, nontrivial=False))
         if not loops:
@@ -192,7 +199,33 @@ def r_heads(prog, tier):
                                 and gc.in_every_iteration(e.id, t.id):
                             ok = True
                             why = 'every child i of enumerate(%s) gets `i == %s`' % (cl, nt[3] if nt[1] == i else nt[1])
-        obs.append(Ob('R-HEADS/MARK', g.fq, 'exactly one child of every constituent is marked head, all others non-head', ok,
+            # form B': for i, c in enumerate(C): c.data['head'] = (i == pos)
+            for e in [n for n in gc.eval_nodes() if n.kind == 'iter' and unparse(n.ast.iter) == 'enumerate(%s)' % cl
+                      and isinstance(n.ast.target, ast.Tuple) and len(n.ast.target.elts) == 2]:
+                i, c = [unparse(x) for x in e.ast.target.elts]
+                for m in gc.eval_nodes():
+                    if m.kind == 'stmt' and isinstance(m.ast, ast.Assign) and e.id in m.loops \
+                            and unparse(m.ast.targets[0]) == "%s.data['head']" % c:
+                        nt = norm_test(m.ast.value, True)
+                        if nt[0] == 'cmp' and nt[2] == '==' and i in (nt[1], nt[3]) and gc.in_every_iteration(e.id, m.id):
+                            ok = True
+                            why = 'every child i of enumerate(%s) gets `i == %s`' % (cl, nt[3] if nt[1] == i else nt[1])
+        verdict = True if ok else None
+        if not ok:
+            # positive evidence of a defect: head flags are set to True somewhere but nothing ever stores False /
+            # a comparison on the children of the same constituent
+            heads = [m for m in gc.eval_nodes() if m.kind == 'stmt' and isinstance(m.ast, ast.Assign)
+                     and unparse(m.ast.targets[0]).endswith(".data['head']") and L.id in m.loops]
+            sets_true = [m for m in heads if unparse(m.ast.value) == 'True']
+            clears = [m for m in heads if unparse(m.ast.value) == 'False' or isinstance(m.ast.value, ast.Compare)]
+            if sets_true and not clears:
+                verdict, why = False, 'a child is marked head but the other children are never marked non-head (stale marks survive)'
+            elif any(isinstance(m.ast.value, ast.Compare) and any(isinstance(c_, ast.Constant) and isinstance(c_.value, str)
+                                                                 for c_ in [m.ast.value.left] + m.ast.value.comparators)
+                     for m in heads):
+                verdict, why = False, 'the head flag is decided per child from its own edge label: several children (or none) ' \
+                                      'can be marked'
+        obs.append(Ob('R-HEADS/MARK', g.fq, 'exactly one child of every constituent is marked head, all others non-head', verdict,
                       why, construct='mark-one', line=g.node.lineno))
     # negra heuristic: leftmost HD, else rightmost NK, else leftmost
     g = prog.func('transform', 'negra_mark_heads')
@@ -221,7 +254,13 @@ def r_heads(prog, tier):
     ed = [v for (_, v) in name_defs(g, E) if isinstance(v, ast.AST)] if E else []
     ed_ok = len(ed) == 1 and isinstance(ed[0], ast.ListComp) and not ed[0].generators[0].ifs \
         and unparse(ed[0].elt) == "%s.data['edge']" % unparse(ed[0].generators[0].target)
-    ok = idxdefs == want and ed_ok
+    ok = True if (idxdefs == want and ed_ok) else None
+    if ok is None and E and idxv and idxdefs:
+        # same shape, different content: positive evidence that the heuristic changed
+        if set(idxdefs) != set(want) and len(idxdefs) == 3 and ed_ok:
+            ok = False
+        elif set(idxdefs) == set(want) and idxdefs != want:
+            ok = False
     obs.append(Ob('R-HEADS/NEGRA', g.fq, 'NeGra heuristic: leftmost HD, else rightmost NK, else leftmost child', ok,
                   'index definitions and their guards match' if ok else 'index definitions %s' % idxdefs,
                   construct='negra-idx', line=g.node.lineno))
@@ -241,7 +280,9 @@ def r_heads(prog, tier):
                   and len([x for x in facts_at(gc, r.id) if x[0][0] == 'cmp' and x[0][2] == '!=']) >= 2 for r in rz)
     nosrc = any(('haskey', kw, 'mark_heads_preset', False) in [x[0] for x in facts_at(gc, r.id)]
                 and ('haskey', kw, 'mark_heads_rulefile', False) in [x[0] for x in facts_at(gc, r.id)] for r in rz)
-    ok = pres == {'negra': 'transformconst.HEAD_RULES_NEGRA', 'ptb': 'transformconst.HEAD_RULES_PTB'} and unknown and nosrc
+    ok = True if (pres == {'negra': 'transformconst.HEAD_RULES_NEGRA', 'ptb': 'transformconst.HEAD_RULES_PTB'} and unknown and nosrc) else None
+    if ok is None and pres and any(('negra' in k) != ('NEGRA' in v) for k, v in pres.items()):
+        ok = False          # a preset selects the other table
     obs.append(Ob('R-HEADS/PRESET', g.fq, 'presets negra/ptb select their tables; an unknown preset or no rule source is '
                   'refused', ok, 'presets %s, unknown -> raise, none -> raise' % sorted(pres) if ok else
                   'presets %s, unknown preset raises %s, missing source raises %s' % (pres, unknown, nosrc),
@@ -252,7 +293,7 @@ def r_heads(prog, tier):
                       for (_, v) in name_defs(g, n.args[2].id)) for n in walk_own(g.node))
     lab_ok = sum(1 for n in walk_own(g.node) if isinstance(n, ast.Attribute) and n.attr == 'label'
                  and isinstance(n.value, ast.Call) and prog.callee(n.value, g) == ('trees', 'parse_label')) >= 2
-    obs.append(Ob('R-HEADS/PRESET', g.fq, 'parent and child categories are handed to the rules without decorations', call_ok and lab_ok,
+    obs.append(Ob('R-HEADS/PRESET', g.fq, 'parent and child categories are handed to the rules without decorations', True if (call_ok and lab_ok) else None,
                   'parse_label(...).label for parent and children' if call_ok and lab_ok else 'labels not undecorated',
                   construct='preset-labels', line=g.node.lineno, nontrivial=False))
     return obs, {}
